@@ -28,6 +28,9 @@ type h01Env struct {
 	// cells stored with StyleDefault keep the default style of the time they were
 	// painted (DESIGN A.2), so their appearance is not judged
 	styleOpen bool
+	// index+1 of a cell whose stored rune was switched between 0 and ' ' in this frame:
+	// same appearance, but the stored value differs, so a repaint is neither required nor forbidden
+	exempt int
 }
 
 func h01New(term string, w, h int, truecolor bool) *h01Env {
@@ -431,7 +434,7 @@ func (e *h01Env) c13(before []h08Cell, stamps []int, styleBefore Style, blkBefor
 				vsymAssert(!written, "C13: a locked cell is never written")
 				continue
 			}
-			if !near {
+			if !near && e.exempt != i+1 {
 				vsymAssert(vsymImplies(same, !written), "C13: a cell whose rune, combining runes and style did not change is not rewritten by Show")
 			}
 		}
@@ -491,5 +494,45 @@ func H01_frames() {
 			changed := vsymOr(b.main != a.main, vsymOr(!h08RunesEq(b.comb, a.comb), b.style != a.style))
 			vsymAssert(vsymImplies(changed, e.tty.vt.cells[i].stamp > blk), "a cell whose rune, combining runes or style changed is rewritten by the next Show")
 		}
+	}
+}
+
+// H01_wide: frames on a 4x2 screen whose second row is never assigned (no Clear, no
+// Fill): wide runes placed over painted cells and moved by one column, cells set to
+// rune 0, and idle frames.  After every Show the display equals the shadow, unchanged
+// cells are not rewritten (also the never-assigned ones) and changed ones are.
+func H01_wide() {
+	terms := h01Terms()
+	e := h01New(terms[vsymChoice("term", vsymParam("terms", 1))], 4, 2, false)
+	for x := 0; x < 4; x++ {
+		e.set(x, 0, rune('a'+x), nil, StyleDefault)
+	}
+	e.s.Show()
+	e.compare("frame 1")
+	nf := vsymParam("wideframes", 3)
+	for f := 0; f < nf; f++ {
+		tag := "w" + string(rune('0'+f))
+		before := make([]h08Cell, len(e.sp.cells))
+		copy(before, e.sp.cells)
+		stamps := e.stamps()
+		blk := e.tty.vt.blk
+		x, y := vsymChoice(tag+".x", 4), vsymChoice(tag+".y", 2)
+		switch vsymChoice(tag+".op", 4) {
+		case 0:
+			// idle frame
+		case 1:
+			r := vsymRune(tag + ".r")
+			vsymAssume(vsymAnd(r >= 0x21, r <= 0x7e))
+			e.set(x, y, r, nil, StyleDefault)
+		case 2:
+			e.set(x, y, []rune{0x4e16, 0xff21}[vsymChoice(tag+".wide", 2)], nil, StyleDefault)
+		case 3:
+			e.set(x, y, 0, nil, StyleDefault)
+			e.exempt = y*4 + x + 1
+		}
+		e.s.Show()
+		e.compare("frame " + string(rune('2'+f)))
+		e.c13(before, stamps, e.style, blk)
+		e.exempt = 0
 	}
 }
